@@ -70,7 +70,7 @@ def textOfScalar : PyScalar → String
 
 /-- `Node.set_value(v)`: a new scalar node; a non-core (class) tag is kept -/
 def setValue (n : Node) (v : PyScalar) : Node :=
-  let tag := if n.tag.startsWith corePrefix then tagOfScalar v else n.tag
+  let tag := if hasPrefix corePrefix n.tag then tagOfScalar v else n.tag
   .scalar tag (textOfScalar v) n.mark
 
 /-- `Node.make_mapping()` -/
